@@ -235,7 +235,7 @@ func c19Check(c C19Case, rec *evid.Rec) error {
 func isUTF8(s string) bool { return strings.ToValidUTF8(s, "\x00\x00") == s }
 
 var c19Part = evid.Part[C19Case]{
-	Prop: "C19", Name: "bind", Quick: 2500, Thorough: 250000,
+	Prop: "C19", Name: "bind", Quick: 2500, Thorough: 1500000,
 	Rule: "schema × typed value × user-supplied Go type assembled with reflect in a drawn variation (int/int8..int64/uint8..uint64/uint per Int position, float32/float64, cid.Cid / cidlink.Link / datamodel.Link, *T for optional or nullable, **T for both, nil-able slices as optionals, struct{Keys;Values} ordered maps, union structs of pointers, string- or int-backed enums, datamodel.Node for Any) × codec; Wrap must read as the value (type and representation level), building through the prototype and Unwrap must give a Go value holding the same data (also with the Go type bindnode infers from the schema, re-wrapped and compared with the reference views), Unmarshal(Marshal(v)) into a fresh value must hold the same data (ordered-map order modulo the codec's canonical order); non-trivial = a pointer-maybe, a narrow/unsigned/float32 position or an ordered map is exercised; distinct by the whole case",
 	Gen: func(t *rapid.T) C19Case {
 		s, typ, tv := genSchemaValue(t, tschema.GenOpts{MaxTypes: 5})
@@ -258,7 +258,7 @@ type C19OvCase struct {
 }
 
 var c19Ov = evid.Part[C19OvCase]{
-	Prop: "C19", Name: "intrange", Quick: 3000, Thorough: 200000,
+	Prop: "C19", Name: "intrange", Quick: 3000, Thorough: 800000,
 	Rule: "struct{fa Int} bound to a Go struct whose field is int8/int16/int32/int/int64/uint8/uint16/uint32/uint64/uint; an integer (boundary-biased, incl. uint64 above int64) is assigned through the type- or representation-level builder: inside the Go type's range it must be stored exactly, outside it the assignment must return an error (never wrap around); non-trivial = the value lies outside the range or within 2 of a bound; distinct by (kind, value, level)",
 	Gen: func(t *rapid.T) C19OvCase {
 		c := C19OvCase{GoKind: rapid.IntRange(0, 9).Draw(t, "kind"), Level: rapid.IntRange(0, 1).Draw(t, "level")}
@@ -522,7 +522,7 @@ func c19HistCheck(c C19HistCase, rec *evid.Rec) error {
 }
 
 var c19Hist = evid.Part[C19HistCase]{
-	Prop: "C19", Name: "histories", Quick: 400, Thorough: 40000,
+	Prop: "C19", Name: "histories", Quick: 400, Thorough: 100000,
 	Rule: "history of ≤12 binding calls (Wrap with inferred schema, Prototype with inferred schema, Wrap with an explicit schema, ipld.Marshal and ipld.Unmarshal with a nil schema, and calls with Go types that inference refuses) over three named Go struct types that share nested named types and slice types, in one process; every call must succeed and read as the Go value; non-trivial = ≥2 calls on the same named type; distinct by history",
 	Gen: func(t *rapid.T) C19HistCase {
 		n := rapid.IntRange(1, 12).Draw(t, "n")
